@@ -211,6 +211,9 @@ int main(void) {
 	uint8_t *c;
 	vout_t out = {0};
 
+	/* A case may include loading a curve, i.e. building a 2x511-entry table for a 521-bit curve with
+	 * 8-bit digits under ASan: minutes of CPU, not a hang.  The budget is CPU time, not wall-clock. */
+	vdrv_case_secs = 1200;
 	vdrv_init();
 	while ((c = vdrv_next_case(&len))) {
 		vin_t in = { c, len, 0, 0 };
